@@ -155,3 +155,21 @@ Proof.
   { vm_compute. eexists; split; reflexivity. }
   destruct H as (x & Hx & <-). eapply h_resume; [exact H0|exact Hx|]. vm_compute. intros C. apply C. reflexivity.
 Qed.
+
+(* validity is satisfiable: the example assets (and the faulted stores used above) are valid *)
+From Verif Require Import model.EngineCorr proofs.EngineNoErr.
+Example ex_assets_valid : valid_assets ex_assets /\ valid_assets ex_assets_no_child.
+Proof. split; apply valid_assets_b_sound; reflexivity. Qed.
+
+From Verif Require Import proofs.EnginePaths.
+Example ex_valid_cat_exits : valid_cat_exits ex_assets.
+Proof. apply valid_cat_exits_b_sound. reflexivity. Qed.
+Example ex_reachable_in : reachable_in ex_assets ex_waiting.
+Proof.
+  change ex_waiting with (session_ (match ex_started with ROk x => x | _ => {| session_ := new_session TManual 1; sprint_ := empty_sprint |} end)).
+  eapply rin_start with (t := TManual) (f := 1). vm_compute. reflexivity.
+Qed.
+
+(* C10: a rejected resume in state-passing form *)
+Example ex_resume_m_rejected : exists x', resume_m ex_assets ex_waiting RDial [] = (x', OErr 103).
+Proof. vm_compute. eexists; reflexivity. Qed.
